@@ -1,7 +1,9 @@
 import Pyunicorn.Lemmas.Similarity
 import Pyunicorn.Lemmas.SimilarityIeee
 import Pyunicorn.Lemmas.SimilarityWeight
+import Pyunicorn.Lemmas.SimilarityHilbert
 import Pyunicorn.Generated.ArithC09
+import Pyunicorn.Model.SimilarityScript
 /-!
 # C09 — similarity networks link exactly the pairs above the threshold
 
@@ -49,6 +51,16 @@ theorem link_iff_object (N : Nat) (directed : Bool) (S0 damp : Sim) (nl : Bool) 
 
 example : (mkThreshold 2 false (fun i j => if i = j then 0 else -3/4) (fun _ _ => 1) false
     (1/2)).A = [false, true, true, false] := by decide +kernel
+
+/-- **cross-layer links of a coupled network** (`CoupledClimateNetwork.cross_layer_adjacency`, the
+block `[:N₁, N₁:]` of the adjacency): node `i` of layer 1 and node `j` of layer 2 are linked
+exactly when their (weighted) cross similarity exceeds the threshold — the zeroed diagonal never
+touches the cross block -/
+theorem cross_link_iff (W : Sim) (θ : Rat) (N1 N2 i j : Nat) (hi : i < N1) (hj : j < N2) :
+    (thresholdAdjacency W θ (N1 + N2))[i * (N1 + N2) + (N1 + j)]? = some true ↔
+      θ < W i (N1 + j) := by
+  rw [link_iff W θ (N1 + N2) i (N1 + j) (by omega) (by omega)]
+  exact ⟨fun h => h.2, fun h => ⟨by omega, h⟩⟩
 
 /-! ## 2. raising the threshold only removes links -/
 
@@ -646,5 +658,264 @@ theorem gen_thrIndex (ρ : Rat) (len : Nat) (hρ1 : ρ ≤ 1) (hlen : 0 < len) :
       exact_mod_cast congrArg (fun z : Int => (z : Rat)) this
     rw [h2]
     grind
+
+
+/-! ## 7. `HilbertClimateNetwork`: phase mask and `set_directed` (round 3) -/
+
+/-- **link rule of the Hilbert network**: in the state with settings `(d, S, P, nl, θ)` node `i`
+links to `j` exactly when they are distinct, the (weighted) coherence exceeds the threshold and —
+for a directed network — the phase shift is positive -/
+theorem hilbert_link_iff (N : Nat) (d : Bool) (S P damp : Sim) (nl : Bool) (θ : Rat)
+    (i j : Nat) (hi : i < N) (hj : j < N) :
+    (hilbertState N d S P damp nl θ).net.A[i * N + j]? = some true ↔
+      i ≠ j ∧ θ < weighted nl S damp i j ∧ (d = true → 0 < P i j) := by
+  cases d
+  · simp only [hilbertState, hilbertAdjacency, Bool.false_eq_true, if_false]
+    rw [getElem?_thresholdAdjacency _ _ _ _ _ hi hj]
+    simp
+  · simp only [hilbertState, hilbertAdjacency, if_true]
+    rw [getElem?_phaseMask, getElem?_thresholdAdjacency _ _ _ _ _ hi hj,
+      flat_div N i j hj, flat_mod N i j hj]
+    simp [and_assoc]
+
+/-- the constructor yields that state: `_set_directed(d, True)`, `ClimateNetwork.__init__` with the
+overridden `set_threshold`, `GeoNetwork.__init__`, `_set_directed(d, False)` — the mask applied
+twice is the mask applied once -/
+theorem hilbert_constructor (N : Nat) (d : Bool) (S0 P damp : Sim) (nl : Bool) (θ : Rat) :
+    mkHilbert N d S0 P damp nl θ = hilbertState N d (absSim S0) P damp nl θ :=
+  mkHilbert_eq_state N d S0 P damp nl θ
+
+/-- **link rule at the constructed object** -/
+theorem hilbert_link_iff_object (N : Nat) (d : Bool) (S0 P damp : Sim) (nl : Bool) (θ : Rat)
+    (i j : Nat) (hi : i < N) (hj : j < N) :
+    (mkHilbert N d S0 P damp nl θ).net.A[i * N + j]? = some true ↔
+      i ≠ j ∧ θ < weighted nl (absSim S0) damp i j ∧ (d = true → 0 < P i j) := by
+  rw [hilbert_constructor]; exact hilbert_link_iff N d _ P damp nl θ i j hi hj
+
+/-- an antisymmetric phase (`arg` of a Hermitian matrix) never links a pair in both directions -/
+theorem hilbert_no_mutual_links (N : Nat) (S P damp : Sim) (nl : Bool) (θ : Rat)
+    (i j : Nat) (hi : i < N) (hj : j < N) (hP : P j i = -P i j) :
+    ¬ ((hilbertState N true S P damp nl θ).net.A[i * N + j]? = some true ∧
+       (hilbertState N true S P damp nl θ).net.A[j * N + i]? = some true) := by
+  rw [hilbert_link_iff N true S P damp nl θ i j hi hj, hilbert_link_iff N true S P damp nl θ j i hj hi]
+  rintro ⟨⟨_, _, h1⟩, ⟨_, _, h2⟩⟩
+  have a := h1 rfl
+  have b := h2 rfl
+  rw [hP] at b
+  grind
+
+/-- an undirected Hilbert network is a plain `ClimateNetwork`: the override changes nothing -/
+theorem hilbert_undirected_is_climate (h : HNet) (θ : Rat) (hd : h.net.directed = false) :
+    (h.setThreshold θ).net = h.net.setThreshold θ := by
+  simp [HNet.setThreshold, HNet.maskIf, Net.setThreshold, hd]
+
+/-- `set_directed(False)` is `_regenerate_network` of the plain model with the flag cleared -/
+theorem hilbert_setDirected_false (h : HNet) (S1 P1 : Sim) :
+    (h.setDirected false S1 P1).net = ({ h.net with directed := false } : Net).regenerate S1 := by
+  rw [setDirected_eq_state]
+  simp [hilbertState, hilbertAdjacency, Net.regenerate, Net.setThreshold]
+
+/-- the reachable states: everything the object reports is the closed-form function of its settings -/
+def HNet.Inv (h : HNet) (N : Nat) (damp : Sim) (d : Bool) (S P : Sim) : Prop :=
+  ∃ nl θ, h = hilbertState N d (absSim S) P damp nl θ
+
+/-- the settings `(directed, coherence, phase)` last stored by the constructor / `set_directed` -/
+def hLast (d0 : Bool) (S0 P0 : Sim) : List HOp → Bool × Sim × Sim
+  | [] => (d0, S0, P0)
+  | .dir d S1 P1 :: os => hLast d S1 P1 os
+  | _ :: os => hLast d0 S0 P0 os
+
+theorem hilbert_step_consistent (h h' : HNet) (N : Nat) (damp : Sim) (d : Bool) (S P : Sim)
+    (o : HOp) (hc : h.Inv N damp d S P) (hs : h.step o = some h') :
+    h'.Inv N damp (hLast d S P [o]).1 (hLast d S P [o]).2.1 (hLast d S P [o]).2.2 := by
+  obtain ⟨nl, θ, rfl⟩ := hc
+  cases o with
+  | thr θ' =>
+    simp only [HNet.step, Option.some.injEq] at hs
+    subst hs
+    exact ⟨nl, θ', setThreshold_eq_state _ θ'⟩
+  | dens k =>
+    simp only [HNet.step, HNet.setLinkDensity, Option.map_eq_some_iff] at hs
+    obtain ⟨θ', _, rfl⟩ := hs
+    exact ⟨nl, θ', setThreshold_eq_state _ θ'⟩
+  | nl b =>
+    simp only [HNet.step, Option.some.injEq] at hs
+    subst hs
+    exact ⟨b, θ, setNonLocal_eq_state _ b rfl⟩
+  | dir d' S1 P1 =>
+    simp only [HNet.step, Option.some.injEq] at hs
+    subst hs
+    exact ⟨nl, θ, setDirected_eq_state _ d' S1 P1⟩
+
+theorem hLast_cons (d : Bool) (S P : Sim) (o : HOp) (os : List HOp) :
+    hLast d S P (o :: os)
+      = hLast (hLast d S P [o]).1 (hLast d S P [o]).2.1 (hLast d S P [o]).2.2 os := by
+  cases o <;> simp [hLast]
+
+/-- **consistency after every history** of `set_threshold / set_link_density / set_non_local /
+set_directed` calls on a Hilbert network that does not raise -/
+theorem hilbert_consistent_after_history (ops : List HOp) (h h' : HNet) (N : Nat) (damp : Sim)
+    (d : Bool) (S P : Sim) (hc : h.Inv N damp d S P) (hr : h.run ops = some h') :
+    h'.Inv N damp (hLast d S P ops).1 (hLast d S P ops).2.1 (hLast d S P ops).2.2 := by
+  induction ops generalizing h d S P with
+  | nil =>
+    simp only [HNet.run, Option.some.injEq] at hr
+    subst hr
+    exact hc
+  | cons o os ih =>
+    simp only [HNet.run, Option.bind_eq_some_iff] at hr
+    obtain ⟨h1, e1, e2⟩ := hr
+    rw [hLast_cons]
+    exact ih h1 _ _ _ (hilbert_step_consistent h h1 N damp d S P o hc e1) e2
+
+/-- **fresh twin, Hilbert**: the object after any history (incl. `set_directed`) equals a fresh
+`HilbertClimateNetwork(data, threshold=threshold(), non_local=non_local(), directed=<last value>)` -/
+theorem hilbert_history_eq_fresh (N : Nat) (d : Bool) (S0 P0 damp : Sim) (nl : Bool) (θ : Rat)
+    (ops : List HOp) (h' : HNet) (hr : (mkHilbert N d S0 P0 damp nl θ).run ops = some h') :
+    h' = mkHilbert N (hLast d S0 P0 ops).1 (hLast d S0 P0 ops).2.1 (hLast d S0 P0 ops).2.2 damp
+          h'.net.nonLocal h'.net.θ ∧
+      h'.net.directed = (hLast d S0 P0 ops).1 := by
+  have hc : (mkHilbert N d S0 P0 damp nl θ).Inv N damp d S0 P0 := ⟨nl, θ, hilbert_constructor ..⟩
+  obtain ⟨nl', θ', rfl⟩ := hilbert_consistent_after_history ops _ h' N damp d S0 P0 hc hr
+  rw [hilbert_constructor]
+  exact ⟨rfl, rfl⟩
+
+/-- **the density request on a Hilbert network, as executed**: the phase mask only removes links,
+so the number of (ordered) linked pairs is at most `(ρ + 2⁻⁵² + 2⁻¹⁰⁶)·(N² − N)` -/
+theorem hilbert_density_le_request (h h' : HNet) (ρ : Rat)
+    (hS : ∀ i j, i < h.net.N → j < h.net.N → 0 ≤ h.net.S i j)
+    (hd : ∀ i j, i < h.net.N → j < h.net.N → h.net.damp i j ≤ 1)
+    (h0 : 0 ≤ ρ) (h1 : ρ ≤ 1)
+    (hs : h.setLinkDensity (ieeeIndex ρ (offDiag h.net.S h.net.N).length) = some h') :
+    (nnz h'.net.A : Rat) ≤ (ρ + ieeeSlack) * ((offDiag h.net.S h.net.N).length : Rat) := by
+  simp only [HNet.setLinkDensity, Option.map_eq_some_iff] at hs
+  obtain ⟨θ, hθ, rfl⟩ := hs
+  have hb := (set_link_density_ieee h.net (h.net.setThreshold θ) ρ hS hd h0 h1
+    (by simp [Net.setLinkDensity, hθ])).1
+  have hle : nnz (h.setThreshold θ).net.A ≤ nnz (h.net.setThreshold θ).A := by
+    rw [setThreshold_eq_state]
+    simp only [hilbertState, hilbertAdjacency, Net.setThreshold]
+    split
+    · exact nnz_phaseMask_le _ _ _
+    · exact Nat.le_refl _
+  have : (nnz (h.setThreshold θ).net.A : Rat) ≤ (nnz (h.net.setThreshold θ).A : Rat) := by
+    exact_mod_cast hle
+  linarith
+
+/-- a directed network from an antisymmetric phase, `set_directed(False)` in the middle: both
+directions of the pair above the threshold are linked again, `n_links` counts it once -/
+example : ((mkHilbert 2 true (fun i j => if i = j then 1 else 3/4)
+      (fun i j => if i < j then 1/2 else if j < i then -1/2 else 0) (fun _ _ => 1) false (1/2)).run
+      [HOp.thr (1/4)]).map (fun h => (h.net.A, h.net.nLinks, h.net.density))
+    = some ([false, true, false, false], 1, some (1/2)) := by decide +kernel
+example : ((mkHilbert 2 true (fun i j => if i = j then 1 else 3/4)
+      (fun i j => if i < j then 1/2 else if j < i then -1/2 else 0) (fun _ _ => 1) false (1/2)).run
+      [HOp.thr (1/4), HOp.dir false (fun i j => if i = j then 1 else 3/4)
+        (fun i j => if i < j then 1/2 else if j < i then -1/2 else 0)]).map
+      (fun h => (h.net.directed, h.net.A, h.net.nLinks, h.net.density))
+    = some (false, [false, true, true, false], 1, some 1) := by decide +kernel
+
+section Scripts
+open Script
+
+/-! ## 8. the method bodies regenerated from the source are the model (round 3) -/
+
+/-- `ClimateNetwork.set_threshold` as written = `Net.setThreshold` -/
+theorem script_setThreshold (fr : Frame) :
+    (run 1 false StructC09.setThreshold fr).map (·.h.net) = some (fr.h.net.setThreshold fr.argθ) := by
+  rfl
+
+/-- the steps of `threshold_from_link_density` (selection of **all off-diagonal** entries, ascending
+sort, clamped quantile index) = `thresholdFromIndex` -/
+theorem script_thresholdFromLinkDensity (S : Sim) (N k : Nat) :
+    quantile StructC09.thresholdFromLinkDensity S N k = thresholdFromIndex S N k := by
+  rfl
+
+/-- `ClimateNetwork.set_link_density` as written = `Net.setLinkDensity` -/
+theorem script_setLinkDensity (fr : Frame) :
+    (run 2 false StructC09.setLinkDensity fr).map (·.h.net) = fr.h.net.setLinkDensity fr.argK := by
+  simp only [run, StructC09.setLinkDensity, execList, execStmt, script_thresholdFromLinkDensity,
+    Net.setLinkDensity]
+  cases h : thresholdFromIndex fr.h.net.S fr.h.net.N fr.argK <;> rfl
+
+/-- `ClimateNetwork.set_non_local` as written = `Net.setNonLocal` -/
+theorem script_setNonLocal (fr : Frame) :
+    (run 2 false StructC09.setNonLocal fr).map (·.h.net) = some (fr.h.net.setNonLocal fr.argNl) := by
+  simp only [run, StructC09.setNonLocal, execList, execStmt, Net.setNonLocal]
+  by_cases hb : (fr.h.net.nonLocal != fr.argNl) = true
+  · simp only [hb, Bool.not_true, if_true]; rfl
+  · have hb' : (fr.h.net.nonLocal != fr.argNl) = false := by simpa using hb
+    simp [hb']
+
+/-- `ClimateNetwork(…, threshold=θ)` as written = `mkThreshold` -/
+theorem script_init_threshold (fr : Frame) (θ : Rat) (hθ : fr.initθ = some θ) :
+    (run 3 false StructC09.init fr).map (·.h.net)
+      = some (({ fr.h.net with directed := fr.argDir, S := absSim fr.initS,
+                               nonLocal := fr.argNl } : Net).setThreshold θ) := by
+  simp only [run, StructC09.init, execList, execStmt, hθ, setNet, back, setThresholdOf]
+  simp [StructC09.setThreshold, execList, execStmt, setNet, val, Net.setThreshold,
+    Net.assignAdjacency]
+
+/-- **construction without threshold and link density raises** (the `print` branch generates no
+network, `GeoNetwork.__init__(adjacency=self.adjacency)` then fails) — on a fresh object -/
+theorem script_init_neither_raises (fr : Frame) (h1 : fr.initθ = none) (h2 : fr.initK = none)
+    (h3 : fr.hasAdj = false) : run 3 false StructC09.init fr = none := by
+  simp [run, StructC09.init, execList, execStmt, h1, h2, h3, setNet]
+
+/-- `_regenerate_network` as written = `Net.regenerate` (re-initialisation with the stored
+similarity, threshold, `non_local` and `directed`) -/
+theorem script_regenerate (fr : Frame) (ha : fr.hasAdj = true) :
+    (run 4 false StructC09.regenerate fr).map (·.h.net) = some (fr.h.net.regenerate fr.h.net.S) := by
+  simp only [run, StructC09.regenerate, execList, execStmt, back]
+  simp [StructC09.init, StructC09.setThreshold, execList, execStmt, setNet, val, back,
+    setThresholdOf, Net.regenerate, Net.setThreshold, Net.assignAdjacency, ha]
+
+/-- `HilbertClimateNetwork.set_threshold` as written = `HNet.setThreshold` -/
+theorem script_hilbert_setThreshold (fr : Frame) :
+    (run 2 true StructC09.hilbertSetThreshold fr).map (·.h) = some (fr.h.setThreshold fr.argθ) := by
+  simp only [run, StructC09.hilbertSetThreshold, execList, execStmt, back]
+  cases hd : fr.h.net.directed <;>
+    simp [StructC09.setThreshold, execList, execStmt, setNet, val, HNet.setThreshold,
+      HNet.maskIf, mask, Net.setThreshold, Net.assignAdjacency, hd]
+
+/-- `HilbertClimateNetwork.set_directed` as written (`_set_directed(d, True)`, `_regenerate_network()`
+— i.e. `ClimateNetwork.__init__` dispatching to the *overridden* `set_threshold` —,
+`_set_directed(d, False)`) = `HNet.setDirected` with the coherence / phase computed from the data -/
+theorem script_hilbert_setDirected (fr : Frame) (ha : fr.hasAdj = true) :
+    (run 6 true StructC09.hilbertSetDirected fr).map (·.h)
+      = some (fr.h.setDirected fr.argDir fr.envS fr.envP) := by
+  rw [setDirected_eq_state]
+  cases hd : fr.argDir <;>
+    simp [run, StructC09.hilbertSetDirected, StructC09.setDirectedCalc, StructC09.setDirectedNoCalc,
+      StructC09.regenerate, StructC09.init, StructC09.hilbertSetThreshold, StructC09.setThreshold,
+      execList, execStmt, setNet, val, back, setThresholdOf, mask, Net.assignAdjacency, ha, hd,
+      hilbertState, hilbertAdjacency, phaseMask_idem]
+
+/-- `HilbertClimateNetwork(data, threshold=θ, non_local=nl, directed=d)` as written = `mkHilbert` -/
+theorem script_hilbert_init (fr : Frame) (θ : Rat) (hθ : fr.initθ = some θ) :
+    (run 5 true StructC09.hilbertInit fr).map (·.h)
+      = some (hilbertState fr.h.net.N fr.argDir (absSim fr.envS) fr.envP fr.h.net.damp fr.argNl θ) := by
+  cases hd : fr.argDir <;>
+    simp [run, StructC09.hilbertInit, StructC09.setDirectedCalc, StructC09.setDirectedNoCalc,
+      StructC09.init, StructC09.hilbertSetThreshold, StructC09.setThreshold,
+      execList, execStmt, setNet, val, back, setThresholdOf, mask, Net.assignAdjacency, hθ, hd,
+      hilbertState, hilbertAdjacency, phaseMask_idem]
+
+/-- of all classes of the climate package only `HilbertClimateNetwork` overrides a method of the
+threshold machinery (`set_threshold`); every other subclass — Tsonis, Spearman, MutualInfo,
+PartialCorrelation, Havlin, Rainfall, EventSeries, Coupled… — inherits the code modelled above -/
+theorem gen_overrides : StructC09.overrides = [("HilbertClimateNetwork", "set_threshold")] := by
+  decide
+
+/-- taking the quantile over the upper triangle only (seeded change C09-3) is *not* the model: for
+a non-symmetric similarity the realised density exceeds the request (ρ = 0 requested, the selected
+threshold 1/4 leaves the link 1 → 0 with similarity 3/4) -/
+example : let S : Sim := fun i j => if i = j then 1 else if i < j then 1/4 else 3/4
+    (let l := sortAsc (selectEntries .upperTriangle S 2); l[min 1 (l.length - 1)]?) = some (1/4) ∧
+      thresholdFromIndex S 2 2 = some (3/4) ∧
+      nnz (thresholdAdjacency S (1/4) 2) = 1 ∧ nnz (thresholdAdjacency S (3/4) 2) = 0 := by
+  decide +kernel
+
+end Scripts
 
 end Pyunicorn.Similarity
